@@ -165,3 +165,17 @@ Proof.
   intros H. destruct (groups_for_arg_exist _ _ _ H) as [grp Hg]. unfold id_exists. rewrite Hg.
   apply Bool.orb_true_r.
 Qed.
+
+(** * completeness of built arguments; the short-cluster walk shrinks *)
+Definition arg_complete (a : arg) : Prop :=
+  a_action a <> None /\ a_num a <> None /\ a_vp a <> None.
+
+
+Lemma sf_next_shrinks r x r' : sf_next r = Some (x, r') -> (length r' < length r)%nat.
+Proof.
+  unfold sf_next. destruct r as [|b t]; [discriminate|].
+  destruct (utf8_step (b :: t)) as [[c n]|] eqn:E.
+  - intros H; inversion H; subst. apply utf8_step_len in E. rewrite skipn_length. cbn [length] in *. lia.
+  - intros H; inversion H; subst. cbn. lia.
+Qed.
+
